@@ -105,7 +105,7 @@ PROPS["C17"] = {
     "modules": ["WhatIs.Props.C17"],
     "theorems": ["WhatIs.C17.parse_eq_spec", "WhatIs.C17.parse_is_uuid", "WhatIs.C17.description_spec",
                  "WhatIs.C17.time_v1_spec", "WhatIs.C17.time_v6_spec", "WhatIs.C17.time_v7_spec", "WhatIs.C17.epoch_spec",
-                 "WhatIs.C17.fields_spec", "WhatIs.C17.civil_roundtrip"],
+                 "WhatIs.C17.fields_spec", "WhatIs.C17.fields_v2_spec", "WhatIs.C17.civil_roundtrip"],
     "facts": {},
     "nontrivial": nt_c17,
     "rule": "every version nibble x variant bits x boundary timestamps (0, 1, 1970-1 tick, 1970, 2038 boundary, max, RFC vectors) "
